@@ -40,3 +40,24 @@ example : ∀ lo hi : Int, [Val.num (.int 1), Val.num (.int 5)] = [.num (.int lo
   simp only [List.cons.injEq, Val.num.injEq, Num.int.injEq, and_true] at h
   obtain ⟨rfl, rfl⟩ := h
   decide
+
+/-- an answer as text (`Val` holds floats and has no decidable equality; the hand-written `bKaRange` computes its round bound
+    with `Rat` division, which only the kernel evaluates) -/
+def Bodies.showR : R Val → String
+  | .ok (.arr xs) => "arr " ++ " ".intercalate (xs.map fun | .num n => n.render | _ => "?")
+  | .ok _ => "other"
+  | .error (.err e) => "err " ++ e.code
+  | .error _ => "declined"
+
+/-- `range(1, 5, 2) = {1, 3, 5}` through the translated `while` loop and through the hand-written loop; the side condition of
+    `BODIES_range_Number_Number_Number` holds there (neither side answers with its bound) -/
+example : Bodies.showR (arity3 (ka_range pyLoopFuel) Bodies.stub [.num (.int 1), .num (.int 5), .num (.int 2)]) = "arr i:1 i:3 i:5" ∧
+    Bodies.showR (BodyCode.run .kaRange Bodies.stub [.num (.int 1), .num (.int 5), .num (.int 2)]) = "arr i:1 i:3 i:5" := by
+  constructor <;> decide +kernel
+example : wellTyped [.num, .num, .num] Option.none [.num (.int 1), .num (.int 5), .num (.int 2)] = true := by decide
+/-- a step that makes no progress (`+` returning its left operand, as `1e16 + 0.5` does) is FunctionArgError on both sides -/
+example : Bodies.showR (arity3 (ka_range pyLoopFuel) (fun nm as => match nm, as with | "+", [x, _] => .ok x | _, _ => Bodies.stub nm as)
+      [.num (.int 1), .num (.int 5), .num (.int 2)]) = "err funarg" ∧
+    Bodies.showR (BodyCode.run .kaRange (fun nm as => match nm, as with | "+", [x, _] => .ok x | _, _ => Bodies.stub nm as)
+      [.num (.int 1), .num (.int 5), .num (.int 2)]) = "err funarg" := by
+  constructor <;> decide +kernel
